@@ -53,9 +53,10 @@ Definition nonempty {A} (l : list A) : bool := match l with [] => false | _ => t
 
 (* anyWitnessInput / anyConfidentialOutput / HasWitness *)
 Definition any_witness_input (t : tx) : bool :=
-  existsb (fun i => nonempty (in_witness i) || nonempty (in_pegwit i)) (t_ins t).
+  existsb (fun i => nonempty (in_witness i) || nonempty (in_pegwit i) ||
+                    nonempty (in_irp i) || nonempty (in_inrp i)) (t_ins t).
 Definition any_conf_output (t : tx) : bool :=
-  existsb (fun o => nonempty (o_rp o)) (t_outs t).
+  existsb (fun o => nonempty (o_rp o) || nonempty (o_sp o)) (t_outs t).
 Definition has_witness (t : tx) : bool :=
   (t_flag t =? 1) || any_witness_input t || any_conf_output t.
 
@@ -224,9 +225,7 @@ Definition no_wit_out (o : txout) : bool :=
 Definition wf_tx (t : tx) : bool :=
   (t_version t <? two32) && (t_locktime t <? two32) &&
   (lenL (t_ins t) <? two64) && (lenL (t_outs t) <? two64) &&
-  forallb wf_in (t_ins t) && forallb wf_out (t_outs t) &&
-  (* witness data that HasWitness() does not see would be dropped by Serialize() *)
-  (has_witness t || (forallb no_wit_in (t_ins t) && forallb no_wit_out (t_outs t))).
+  forallb wf_in (t_ins t) && forallb wf_out (t_outs t).
 
 (* the parsed Flag is the byte that was written *)
 Definition norm_tx (t : tx) : tx :=
